@@ -119,6 +119,7 @@ pub struct Rendering {
     pub close_lines: Vec<usize>,
     pub has_split_close: bool,
     pub n_intermediate_closes: usize,
+    pub n_partial_closes: usize,
     pub n_dups: usize,
 }
 
@@ -226,8 +227,22 @@ pub fn render(p: &Program, fs: &FactSet, plan: Option<&[u16]>, close_cmd: &str) 
             close_after[t.pick(n - 1)] = true;
         }
     }
+    // partially run closes (close_until stopping after a few evaluations of its condition) between
+    // assertions: the final model must not depend on where evaluation was suspended either
+    let mut partial_after: Vec<usize> = vec![0; n];
+    if plan.is_some() && n > 1 {
+        let k = t.pick(4);
+        for _ in 0..k {
+            partial_after[t.pick(n - 1)] = 1 + t.pick(4);
+        }
+    }
     for (i, f) in order.iter().enumerate() {
         r.fact(fs, &fs.facts[*f]);
+        if partial_after[i] > 0 && !close_after[i] {
+            r.out.script.push(format!("cu 0 evals {}", partial_after[i]));
+            r.out.n_partial_closes += 1;
+            r.out.has_split_close = true;
+        }
         if close_after[i] {
             if r.out.first_close_line.is_none() {
                 r.out.first_close_line = Some(r.out.script.len());
@@ -356,8 +371,8 @@ pub fn run_factset(p: &Program, exe: &std::path::Path, fs: &FactSet, plans: &[Ve
         if let Err(e) = iso::isomorphic_with(p, &base, &m, &seeds) {
             return Outcome {
                 finding: Some(format!(
-                    "rendering {} ({} intermediate closes, {} duplicated assertions) ends in a different model than the one-shot rendering: {}",
-                    ri, rs[ri].n_intermediate_closes, rs[ri].n_dups, e
+                    "rendering {} ({} intermediate closes, {} partially run closes, {} duplicated assertions) ends in a different model than the one-shot rendering: {}",
+                    ri, rs[ri].n_intermediate_closes, rs[ri].n_partial_closes, rs[ri].n_dups, e
                 )),
                 bounded: false,
                 nontrivial: false,
@@ -496,7 +511,7 @@ pub fn run_c03(tier: &str, seed: u64) -> campaign::CampaignResult {
     ev.count("programs_built", built);
     ev.count("renderings_per_factset", (k + 1) as u64);
     ev.extra.insert("programs".into(), json!(built));
-    ev.rule = format!("fact sets (ground atoms with nested terms over named generators) from a proptest tape, each rendered into 1 one-shot history + {} histories (permuted assertions, 0-4 intermediate closes, duplicated assertions, generator creation order); evaluations = fact sets; non-trivial = the final close derives something and some rendering has an intermediate close between assertions; distinct by hash(program, fact set)", k);
+    ev.rule = format!("fact sets (ground atoms with nested terms over named generators) from a proptest tape, each rendered into 1 one-shot history + {} histories (permuted assertions, 0-4 intermediate closes, 0-3 partially run closes = close_until stopped after 1-4 evaluations, duplicated assertions, generator creation order); evaluations = fact sets; non-trivial = the final close derives something and some rendering has an intermediate close between assertions; distinct by hash(program, fact set)", k);
     ev.assumptions = vec!["the isomorphism finder is correct; closes of programs with `!` are bounded, bounded fact sets are discarded".into()];
     ev.violations = violations as u64;
     ev.wall_s = start.elapsed().as_secs_f64();
